@@ -52,24 +52,29 @@ Whole(r, o) ==
   ELSE IF Exceeded(u, [r.lim EXCEPT !.merge_keys = Unl]) = {} /\ "merge_keys" \in Exceeded(u, r.lim) THEN "breach-merge-keys"
   ELSE "wrong-breach-kind"
 
-(* per-document enforcement: item d of the iterator belongs to document d (harness generates   *)
-(* non-null documents only); `documents` is not limited; after a budget error nothing more is  *)
-(* prescribed                                                                                  *)
-RECURSIVE PerDocItems(_, _, _)
-PerDocItems(r, d, nd) ==
-  IF d > Len(r.items) THEN (IF d > nd THEN "ok" ELSE "items-missing")
-  ELSE IF d > nd THEN "extra-item"
-  ELSE LET u == DocUsage(r.raw, d)  lim == [r.lim EXCEPT !.documents = Unl]  it == r.items[d] IN
-       IF IsO(it) THEN "skip"
-       ELSE IF Within(u, lim) THEN (IF it = "ok" THEN PerDocItems(r, d + 1, nd) ELSE "rejected-within-limits")
-       ELSE IF ~IsB(it) THEN "accepted-over-limit"
-       ELSE IF BK(it) \in Exceeded(u, lim) THEN "ok" ELSE "wrong-breach-kind"
+(* per-document enforcement (harness generates non-null documents only; `documents` is not      *)
+(* limited): the documents are judged one by one, each on its own quantities - "the number of    *)
+(* documents already read never affects whether a document is accepted".  A document within the  *)
+(* limits must be yielded as ok, also after an earlier document was rejected; a document over a  *)
+(* limit must be rejected with a matching breach, or - the iterator may end after a budget error *)
+(* - not be yielded at all, but then no later document within the limits may be missing either.  *)
+RECURSIVE PerDocItems(_, _, _, _)
+PerDocItems(r, d, i, nd) ==
+  IF d > nd THEN (IF i > Len(r.items) THEN "ok" ELSE "extra-item")
+  ELSE LET u == DocUsage(r.raw, d)  lim == [r.lim EXCEPT !.documents = Unl] IN
+       IF i <= Len(r.items) /\ IsO(r.items[i]) THEN "skip"
+       ELSE IF Within(u, lim) THEN
+            (IF i > Len(r.items) THEN "document-within-limits-not-yielded"
+             ELSE IF r.items[i] = "ok" THEN PerDocItems(r, d + 1, i + 1, nd) ELSE "rejected-within-limits")
+       ELSE IF i > Len(r.items) THEN PerDocItems(r, d + 1, i, nd)
+       ELSE IF ~IsB(r.items[i]) THEN "accepted-over-limit"
+       ELSE IF BK(r.items[i]) \in Exceeded(u, lim) THEN PerDocItems(r, d + 1, i + 1, nd) ELSE "wrong-breach-kind"
 
 Check(r) ==
   IF ~AllResolvable(r.raw) THEN "skip"
   ELSE CASE r.entry \in {"str", "multi"} -> Whole(r, Obs(r.raw))
          [] r.entry = "check-all" -> Whole(r, NoReplay(r.raw))
-         [] r.entry = "read" -> PerDocItems(r, 1, Len(DocStarts(r.raw)))
+         [] r.entry = "read" -> PerDocItems(r, 1, 1, Len(DocStarts(r.raw)))
          [] OTHER -> "skip"
 
 Init == l = 1 /\ TLCSet(1, 0) /\ TLCSet(2, 0)
